@@ -9,6 +9,7 @@ mod fam_c06;
 mod fam_hist;
 mod fam_hasher;
 mod fam_c10;
+mod fam_c16;
 
 fn main() {
     let args: Vec<String> = std::env::args().collect();
@@ -29,6 +30,7 @@ fn main() {
         "hist" => fam_hist::run(seed, thorough),
         "hasher" => fam_hasher::run(seed, thorough),
         "c10" => fam_c10::run(seed, thorough),
+        "c16" => fam_c16::run(seed, thorough),
         other => {
             eprintln!("unknown family {}", other);
             std::process::exit(2);
